@@ -187,6 +187,8 @@ def oracle_c16(impl_lines):
             elif l.startswith("KR ") and region is not None:
                 a = l.split()
                 region.append((int(a[1]), int(a[2]), " ".join(a[3:])))
+            elif l.startswith("KRX "):
+                fails.append((cid, "for_each_in_region on a const canvas visits other cells/elements than on the canvas itself"))
             elif l.startswith("KG ") and pend and pend[0] == "get":
                 x, y = pend[2]
                 want = cv[pend[1]]["grid"].get((x, y), DEFAULT)
@@ -208,6 +210,8 @@ def oracle_c15(impl_lines):
         for l in cases[cid]:
             if l.startswith("> "):
                 last = l
+            if l.startswith("CMPX "):
+                fails.append((cid, "the answers of the comparison operators changed %s (%s)" % (l[5:], last[2:])))
             if l.startswith("CMP "):
                 a = l.split()
                 eq, ne, lt, gt, le, ge, three = [int(x) for x in a[1:8]]
